@@ -25,6 +25,12 @@ func main() {
 		cmdList(os.Args[2:])
 	case "sweep":
 		cmdSweep(os.Args[2:])
+	case "replay":
+		if len(os.Args) < 3 {
+			fmt.Fprintln(os.Stderr, "usage: govc replay <file>")
+			os.Exit(2)
+		}
+		os.Exit(govc.RunReplayFile(os.Args[2]))
 	case "eff":
 		v, err := govc.Load("/repo", "./...")
 		if err != nil {
